@@ -345,33 +345,45 @@ func c15run(r *ev.Run) {
 		maxLen = 3
 		bounds = []int{1, 2, 1}
 	}
-	pws := c15pwList(maxLen)
 	var rejected int64
 	var mu syncMutex
-	ex := &xplore.Explorer{Bounds: bounds, Workers: r.Workers, Body: func(c *xplore.Ctx) {
-		cs := c15build(c, pws)
-		fs, ok := c15check(cs, c.Vector(), c.TotalCost()*1000+len(cs.text))
-		if !ok {
-			mu.Lock()
-			rejected++
-			mu.Unlock()
-			return
+	type pass struct {
+		maxLen int
+		bounds []int
+	}
+	passes := []pass{{maxLen, bounds}}
+	if th {
+		// passwords <=3 with one spelling deviation, passwords <=2 with two
+		passes = []pass{{3, []int{1, 1, 1}}, {2, []int{1, 2, 1}}}
+	}
+	var pws []string
+	for _, ps := range passes {
+		pws = c15pwList(ps.maxLen)
+		ex := &xplore.Explorer{Bounds: ps.bounds, Workers: r.Workers, Deadline: deadlineFor(r.Tier), Body: func(c *xplore.Ctx) {
+			cs := c15build(c, pws)
+			fs, ok := c15check(cs, c.Vector(), c.TotalCost()*1000+len(cs.text))
+			if !ok {
+				mu.Lock()
+				rejected++
+				mu.Unlock()
+				return
+			}
+			n := r.Eval()
+			r.State(astx.HashString(cs.text), true)
+			r.Sample(n, func() interface{} { return cs.text })
+			for _, f := range fs {
+				r.Report(f)
+			}
+		}}
+		ex.Run()
+		r.Trans(ex.Transitions)
+		if ex.Capped {
+			r.Exhaustive = false
 		}
-		n := r.Eval()
-		r.State(astx.HashString(cs.text), true)
-		r.Sample(n, func() interface{} { return cs.text })
-		for _, f := range fs {
-			r.Report(f)
-		}
-	}}
-	ex.Run()
-	r.Trans(ex.Transitions)
-	if ex.Capped {
-		r.Exhaustive = false
 	}
 	// texts without a password clause come back identical
 	texts := append([]string{}, c15unchanged...)
-	ex2 := &xplore.Explorer{Bounds: []int{1, 0, 0}, Workers: r.Workers, Body: func(c *xplore.Ctx) {
+	ex2 := &xplore.Explorer{Bounds: []int{1, 0, 0}, Workers: r.Workers, Deadline: deadlineFor(r.Tier), Body: func(c *xplore.Ctx) {
 		g := gram.New(c)
 		g.NoValueAlts = true
 		spec := gram.Statement(g)
@@ -399,6 +411,6 @@ func c15run(r *ev.Run) {
 	r.Set("password_alphabet", len(c15pwAlpha))
 	r.Set("user_names", len(c15users))
 	r.Set("texts_rejected_by_parser_not_counted", rejected)
-	r.Set("bounds_struct_spell_value", bounds)
+	r.Set("passes_maxlen_and_bounds_struct_spell_value", fmt.Sprint(passes))
 	r.Rule = fmt.Sprintf("both password statement kinds x every password of length <=%d over a %d-symbol alphabet (marker letters z,q that occur nowhere else, space, both quotes, backslash, =, ;, tab, newline) [full product] x user names x layouts (keyword case, every gap from {none where legal, space, two spaces, tab, LF, CRLF, block comment, line comment}) x context (alone, before/after another statement, two password statements, no space after ;) within the deviation bounds; only texts the parser accepts are counted. Oracle: Sanitize(text) == text with exactly the password literal spans replaced; String() has [REDACTED] and no marker. Plus every non-password statement of the grammar model within 1 deviation and hand-picked texts containing the words: must come back unchanged.", maxLen, len(c15pwAlpha))
 }
